@@ -36,8 +36,10 @@ class _D(Domain):
     def resolve_call(self, st, call, walker):
         return None
 
+    counts = [0, 1, 2]
+
     def for_counts(self, st, node, itersym):
-        return [0, 1, 2]
+        return list(self.counts)
 
     def decide(self, st, sym, node):
         from dlint.walk import fold_truth
@@ -396,6 +398,8 @@ def check_lookup(program, rep):
 
 
 def run(program, rep, tier):
+    _D.counts = [0, 1, 2, 3] if tier == 'thorough' else [0, 1, 2]
+    rep.extra['loop_counts'] = _D.counts
     check_setitem(program, rep)
     check_chainmap(program, rep)
     check_clear(program, rep)
